@@ -9,9 +9,13 @@ for a in sys.argv[1:]:
     extra[k] = v.split(',')
 base = '/verif/seeded'
 rows = []
+import re as _re
+flt = os.environ.get('CORPUS_FILTER')
 for d in sorted(os.listdir(base)):
     p = os.path.join(base, d)
     if not os.path.isdir(p):
+        continue
+    if flt and not _re.search(flt, d):
         continue
     meta = json.load(open(os.path.join(p, 'meta.json')))
     props = [meta['property']] + extra.get(d, [])
